@@ -17,6 +17,7 @@ from ..vlab import Lab, ProbeObserver
 
 END = 600.0          # the virtual clock is run up to here (periodic timers of never-ending pipelines are unbounded)
 CHILD_END = 500.0    # window/group probes still subscribed are unsubscribed here (only when the top is finished)
+LIVELOCK = 3000      # same-instant scheduler actions after which a run is cut and the case discarded
 
 
 class Stage:
@@ -38,6 +39,7 @@ class Built:
         self.r, self.lab, self.g, self.main, self.stages, self.opts = r, lab, g, main, stages, opts
         self.sub_action: int | None = None     # number of scheduler actions started when subscribe() was called
         self.term_action: int | None = None
+        self.livelock = False
 
     def kept(self, keep: list | None) -> list[Stage]:
         return [s for s in self.stages if keep is None or s.idx in keep]
@@ -138,6 +140,16 @@ def execute(b: Built, keep: list | None = None, top: ProbeObserver | None = None
                 if c.terminal is None and c.subscription is not None:
                     c.dispose()
 
+    prev_hook = lab.action_hook
+
+    def hook(n: int) -> None:
+        if lab.same_instant > LIVELOCK and not b.livelock:
+            b.livelock = True           # a same-instant loop (advance_to has no spin protection): cut the run
+            lab.ts.stop()
+        if prev_hook is not None:
+            prev_hook(n)
+
+    lab.action_hook = hook
     lab.at(SUB_AT, do_sub)
     if end_children:
         lab.at(CHILD_END, finish_children)
